@@ -163,6 +163,17 @@ func c01Judge(r *mon.Run, p *gen.Project, l gen.Layout, reduce bool) (ref.Verdic
 		r.Violate("panic", "Check/"+pn.Site, fmt.Sprintf("Check() panicked (%s) on %s", pn.Value, mon.Trunc(projectKey(pt), 300)), cs)
 		return want, false
 	}
+	if len(pt.Types) >= 2 {
+		// what the files are called says nothing about the values: the same project with every text under one file
+		// name is accepted or refused alike
+		one := pt
+		one.UseOneName, one.OneName = true, "types.jst"
+		if code1, _, pn1 := checkProject(one); pn1 == nil && (code1 == 0) != (code == 0) {
+			r.Violate("file-name-verdict", projectKey(pt), fmt.Sprintf("Check() answers code %d, and code %d when every text of the project is given the file name types.jst: %s", code, code1, mon.Trunc(projectKey(pt), 300)), cs)
+			return want, false
+		}
+		r.Count("projects_also_checked_under_one_file_name", 1)
+	}
 	switch want {
 	case ref.Viol:
 		if code == 0 {
@@ -474,6 +485,32 @@ func c01Placements(s leafSpec, v string) []*gen.Project {
 	return out
 }
 
+// c01TwinTypes: two types whose texts have the same length and carry an or of rule-sets at the same place, with
+// different bounds; the root holds one value of each (through c01Judge also with every text under one file name).
+func c01TwinTypes(r *mon.Run) {
+	orOf := func(rule, bound string) gen.RV {
+		return gen.ListOf(gen.SetOf(gen.Rule{Name: "type", Val: gen.LitV(`"integer"`)}, gen.Rule{Name: rule, Val: gen.LitV(bound)}), gen.SetOf(gen.Rule{Name: "type", Val: gen.LitV(`"string"`)}))
+	}
+	for _, tw := range []struct{ exA, ruleA, boundA, exB, ruleB, boundB string }{
+		{"12", "min", "1", "-5", "max", "0"}, {"-5", "max", "0", "12", "min", "1"}, {"5", "min", "1", "5", "min", "9"}, {"5", "min", "9", "5", "min", "1"},
+		{"3", "max", "5", "7", "max", "5"}, {"7", "min", "5", "7", "max", "5"},
+	} {
+		a := (&gen.Node{Kind: gen.KInt, Lit: tw.exA}).RVal("or", orOf(tw.ruleA, tw.boundA))
+		b := (&gen.Node{Kind: gen.KInt, Lit: tw.exB}).RVal("or", orOf(tw.ruleB, tw.boundB))
+		for _, root := range []*gen.Node{
+			gen.Obj(gen.Ref("@a").K("a"), gen.Ref("@b").K("b")),
+			gen.Obj((&gen.Node{Kind: gen.KInt, Lit: tw.exA}).R("type", `"@a"`).K("a"), (&gen.Node{Kind: gen.KInt, Lit: tw.exB}).R("type", `"@b"`).K("b")),
+			gen.Obj((&gen.Node{Kind: gen.KInt, Lit: tw.exB}).R("type", `"@a"`).K("a"), (&gen.Node{Kind: gen.KInt, Lit: tw.exA}).R("type", `"@b"`).K("b")),
+		} {
+			p := &gen.Project{Root: root, Types: []gen.NamedNode{{Name: "@a", Node: a}, {Name: "@b", Node: b}}}
+			if _, ok := c01Judge(r, p, gen.DefaultLayout, false); ok {
+				r.Nontrivial("twins", projectKey(toTexts(p, gen.DefaultLayout)))
+			}
+			r.Count("twin_type_projects", 1)
+		}
+	}
+}
+
 // c01ContainerUnderOr holds the pinned witnesses of a recorded finding: the rules of an `or` alternative are not applied
 // to an example that is a container (the kinds are compared, minItems / maxItems are not). Scalars under the same
 // rule are judged by the grid.
@@ -501,6 +538,7 @@ func c01ContainerUnderOr(r *mon.Run) {
 func c01Run(r *mon.Run) {
 	if r.Shard == 0 {
 		c01ContainerUnderOr(r)
+		c01TwinTypes(r)
 	}
 	// (1) the grid, enumerated completely
 	c01Acyclic = true
